@@ -475,6 +475,22 @@ def _all_recvs_below(rk, i, memo):
     return res
 
 
+def _reach(rk, i):
+    """all nodes reachable from node i through every edge"""
+    seen = set()
+    stack = [i]
+    while stack:
+        j = stack.pop()
+        if j in seen:
+            continue
+        seen.add(j)
+        nd = rk["nodes"][j]
+        for k in ("a", "b", "data", "pass"):
+            if k in nd:
+                stack.append(nd[k])
+    return seen
+
+
 def known_patterns(spec):
     """spec-level predicates naming the program shapes of the defects found on the unchanged tree"""
     sends, _ = comm_ops(spec)
@@ -486,6 +502,13 @@ def known_patterns(spec):
             fwd = True
         if _all_recvs_below(rk, data, {}) != recv_deps(rk, data):
             holder = True
+    nested = False
+    for a in sends:
+        for b in sends:
+            if a is not b and (a["rank"], a["dst"], a["tag"]) == (b["rank"], b["dst"], b["tag"]):
+                rk = spec["ranks"][a["rank"]]
+                if b["node"] in _reach(rk, rk["nodes"][a["node"]]["data"]):
+                    nested = True
     out_in = False
     for rk in spec["ranks"]:
         live = live_nodes(rk)
@@ -493,7 +516,7 @@ def known_patterns(spec):
         if any(nm in innames for nm, _ in rk["outputs"]):
             out_in = True
     return {"send_of_unmodified_recv": fwd, "payload_through_send_holder": holder,
-            "output_named_like_input": out_in}
+            "output_named_like_input": out_in, "duplicate_send_nested_in_payload": nested}
 
 
 def stats(spec):
@@ -720,8 +743,19 @@ def apply_fault(spec, kind, site, variant=0):
         nd.update({"op": "alias", "a": pas})
     elif kind == "dup_send":
         # a second send with the same (dst, tag): other data, stapled elsewhere
-        data = nd["data"] if variant % 2 == 0 else 0
-        rk["nodes"].append({"op": "send", "data": data, "dst": nd["dst"], "tag": nd["tag"], "pass": 0})
+        if variant == 2:
+            # the duplicate's payload is computed from the original holder
+            h = s["node"]
+            rk["nodes"].append({"op": "add", "a": h, "b": h})
+            rk["nodes"].append({"op": "send", "data": len(rk["nodes"]) - 1, "dst": nd["dst"], "tag": nd["tag"],
+                                "pass": h})
+            # visited before the original: first output
+            rk["outputs"].insert(0, [f"fault{len(rk['outputs'])}", len(rk["nodes"]) - 1])
+            sp.setdefault("faults", []).append([kind, site, variant])
+            return sp
+        else:
+            data = nd["data"] if variant % 2 == 0 else 0
+            rk["nodes"].append({"op": "send", "data": data, "dst": nd["dst"], "tag": nd["tag"], "pass": 0})
         _add_output(rk, len(rk["nodes"]) - 1)
     elif kind == "retag_send":
         sp["tags"].append(["s", f"faulttag{len(sp['tags'])}"])
